@@ -409,6 +409,12 @@ func c14RunExec(s c14Scenario) (res c14Result) {
 		for k, f := range env.helpers {
 			ctx.Set(k, f)
 		}
+		// stateful test data (iterators) belongs to one execution: give every child its own
+		for k, v := range s.Data {
+			if v.T == "iter" {
+				ctx.Set(k, materialize(v, env))
+			}
+		}
 		ctx.Set("partialFeeder", func(name string) (string, error) {
 			if p, ok := env.parts[name]; ok {
 				return p, nil
@@ -423,8 +429,9 @@ func c14RunExec(s c14Scenario) (res c14Result) {
 	}
 	_ = item
 	type outcome struct{ Out, Err, Calls string }
-	run := func(t *plush.Template) outcome {
+	run := func(t *plush.Template, gid string) outcome {
 		ctx, env := mkctx(parent)
+		ctx.Set("gid", gid) // data that differs from execution to execution
 		var out string
 		var err error
 		if t != nil {
@@ -449,7 +456,7 @@ func c14RunExec(s c14Scenario) (res c14Result) {
 		}
 		shared = t
 	}
-	want := run(shared)
+	got := make([][]outcome, s.G)
 	var wg sync.WaitGroup
 	var mu sync.Mutex
 	start := make(chan struct{})
@@ -466,17 +473,20 @@ func c14RunExec(s c14Scenario) (res c14Result) {
 			}()
 			<-start
 			for i := 0; i < s.Iters; i++ {
-				got := run(shared)
-				if got != want {
-					mu.Lock()
-					res.Mismatch = fmt.Sprintf("goroutine %d got %+v, alone it gives %+v", g, got, want)
-					mu.Unlock()
-					return
-				}
+				got[g] = append(got[g], run(shared, fmt.Sprintf("g%dx%dq%d", g, i, s.ID)))
 			}
 		}(g)
 	}
 	close(start)
 	wg.Wait()
+	// the same executions alone, afterwards
+	for g := range got {
+		for i, o := range got[g] {
+			if want := run(shared, fmt.Sprintf("g%dx%dq%d", g, i, s.ID)); o != want {
+				res.Mismatch = fmt.Sprintf("goroutine %d execution %d got %+v, alone it gives %+v", g, i, o, want)
+				return
+			}
+		}
+	}
 	return
 }
